@@ -1568,6 +1568,12 @@ def m_hint(ex, st, fr, path, args, m):
     return UNIT
 
 
+@model(r"^<(?:ordered_float::)?OrderedFloat<(f64|f32)> as (?:std::ops::)?(Deref|DerefMut)>::(deref|deref_mut)$")
+def m_ordered_float_deref(ex, st, fr, path, args, m):
+    r = args[0]
+    return Ref(r.cell, r.path + (("f", 0),), None, False, r.mut)
+
+
 @model(r"^<(.*) as (?:std::ops::)?(Deref|DerefMut)>::(deref|deref_mut)$")
 def m_deref_generic(ex, st, fr, path, args, m):
     r = args[0]
@@ -1974,10 +1980,41 @@ def boxed(v):
     return Ref(Cell(v), (), None, False, True)
 
 
+RUST_ELEM = {"u8": "u8", "u16": "u16", "u32": "u32", "u64": "u64", "i64": "i64", "usize": "usize", "f64": "ordered_float::OrderedFloat<f64>", "str": "&'a str"}
+
+
+def _dyn_real_impl(ex, st, self_ty, op, args):
+    """dispatch a `dyn Data` call to the real impl method (executed from its MIR) for the receiver's concrete type"""
+    r = ex.resolve_method(self_ty, "Data", op)
+    if r is None:
+        raise Unsupported(f"no impl Data for {self_ty} with {op} in the current source")
+    fn, binding = r
+    return ex.call_sync(st, fn, list(args), dict(binding))
+
+
 @model(r"^<dyn (?:engine::data_types::(?:data::)?)?Data(?:<.*>)? as (?:engine::data_types::(?:data::)?)?Data(?:<.*>)?>::(\w+)$")
 def m_dyn_data(ex, st, fr, path, args, m):
     op = m.group(1)
+    v0 = deref_val(args[0])
+    r0 = args[0]
+    while isinstance(v0, Ref):
+        r0 = v0
+        v0 = deref_val(r0)
+    if isinstance(v0, I):
+        # `impl Data for usize`: the all-NULL column
+        if op == "len":
+            return v0
+        if op == "get_type":
+            return Agg("enum", [], name="EncodingType", variant="Null")
+        if op == "get_raw":
+            return _dyn_real_impl(ex, st, "usize", op, [r0] + list(args[1:]))
+        return NotImplemented
     r, data, present, ty = data_view(args[0])
+    if op == "get_raw":
+        et = RUST_ELEM.get(ty)
+        if et is None:
+            raise Unsupported("get_raw on Data<" + ty + ">")
+        return _dyn_real_impl(ex, st, f"NullableVec<{et}>" if present is not None else f"Vec<{et}>", op, [r] + list(args[1:]))
     n = len(data.elems)
     if op == "len":
         return I("usize", n)
@@ -2033,6 +2070,11 @@ def m_exchange_malloc(ex, st, fr, path, args, m):
 
 @model(r"^<Box<dyn (?:engine::data_types::(?:data::)?)?Data(?:<.*>)?> as (?:mem_store::column::)?DataSource>::(len|encoding_type)$")
 def m_boxed_data_source(ex, st, fr, path, args, m):
+    v0 = deref_val(args[0])
+    while isinstance(v0, Ref):
+        v0 = deref_val(v0)
+    if isinstance(v0, I) and m.group(1) == "len":
+        return v0
     r, data, present, ty = data_view(args[0])
     if m.group(1) == "len":
         return I("usize", len(data.elems))
